@@ -169,14 +169,13 @@ theorem codon_iterator_lists_reference_codons (c : CDS) (h : WFCDS c)
   scanCodons_ok c h hshallow hkept chrom hs halpha trunc
 
 /-- **T3b** `has_start_codon_in_specific_translation_table` is "the first reference codon is a start codon of the
-    table"; on a CDS without a complete codon the modelled code lets StopIteration escape (`obsOpt … = none`,
-    finding F-C19e), which the clause accepts as a refusal. -/
+    table"; on a CDS without a complete codon the answer is `false` (repaired F-C19e: `next(…, None)`). -/
 theorem start_codon_predicates_read_first_codon (c : CDS) (h : WFCDS c)
     (hshallow : shallowTrim (exonWalk c.loc (specFrames c)) = true)
     (hkept : c.loc.blocks.length = 1 ∨ cdsKept c.loc (specFrames c) ≠ [])
     (chrom : List Char) (hs : SeqOK c chrom) (halpha : ∀ ch ∈ chrom, ch.toUpper ∈ Gen.codonAlphabet)
     (table : Nat) (starts : List (List Char)) (ht : startCodonsOf table = some starts) :
-    okFirstCodon (specOf c) starts (obsOpt (ans (hasStartCodonIn c (table : Int)))) = true :=
+    okFirstCodon (specOf c) starts (ans (hasStartCodonIn c (table : Int))) = true :=
   startCodon_ok c h hshallow hkept chrom hs halpha table starts ht
 
 /-- **T3b** `has_canonical_start_codon` -/
@@ -184,7 +183,7 @@ theorem canonical_start_reads_first_codon (c : CDS) (h : WFCDS c)
     (hshallow : shallowTrim (exonWalk c.loc (specFrames c)) = true)
     (hkept : c.loc.blocks.length = 1 ∨ cdsKept c.loc (specFrames c) ≠ [])
     (chrom : List Char) (hs : SeqOK c chrom) (halpha : ∀ ch ∈ chrom, ch.toUpper ∈ Gen.codonAlphabet) :
-    okFirstCodon (specOf c) ["ATG".toList] (obsOpt (ans (hasCanonicalStartCodon c))) = true :=
+    okFirstCodon (specOf c) ["ATG".toList] (ans (hasCanonicalStartCodon c)) = true :=
   canonicalStart_ok c h hshallow hkept chrom hs halpha
 
 /-- **T3b** `has_valid_stop` is "the last reference codon is a stop codon". -/
@@ -334,6 +333,12 @@ example : WFCDS plainCDS ∧ plainCDS.loc.blocks = [(1, 4)] ∧ plainCDS.frames 
     (cdsKept plainCDS.loc (specFrames plainCDS)).filter (inW 0 5) ≠ [] := by
   refine ⟨?_, rfl, rfl, by decide⟩
   constructor <;> simp [plainCDS] <;> decide
+
+/-- repaired F-C19e (regression): a CDS without a complete codon answers `false` -/
+def codonlessCDS : CDS :=
+  { loc := ⟨[(0, 3)], .plus⟩, start := 0, «end» := 3, frames := [.TWO], seq := some "ACGTACGT".toList }
+example : ans (hasCanonicalStartCodon codonlessCDS) = some false := by decide +kernel
+example : ans (hasStartCodonIn codonlessCDS 11) = some false := by decide +kernel
 
 /-- F-C05h: first block shorter than the start offset -/
 example : ans (constructFramesFromLocation (.compound ⟨[(0, 1), (7, 11)], .plus⟩) .TWO) = some [.TWO, .TWO] := by
